@@ -10,6 +10,9 @@ type Corruption struct {
 	V    *Val
 	Path []string
 	What string
+	// Names, when set, is a text the rejection must show (an undeclared key is named in the message: the path
+	// leads to the object that holds it)
+	Names string
 }
 
 func cloneVal(v *Val) *Val {
@@ -178,7 +181,16 @@ func Corruptions(t *Ty, v *Val, env Env) []Corruption {
 		if v.MVA {
 			c := cloneVal(v)
 			c.M = append(c.M, [2]*Val{Str("undeclared_key"), Int("int64", 1)})
-			out = append(out, Corruption{V: c, Path: []string{}, What: "extra key"})
+			out = append(out, Corruption{V: c, Path: []string{}, What: "extra key", Names: "undeclared_key"})
+			if v.MK == "any" {
+				// what YAML 1.1 and CBOR decoders produce: keys that are not strings (`443:`, `on:`)
+				c2 := cloneVal(v)
+				c2.M = append(c2.M, [2]*Val{Int("int64", 443), Int("int64", 1)})
+				out = append(out, Corruption{V: c2, Path: []string{}, What: "extra key (not a string)", Names: "443"})
+				c3 := cloneVal(v)
+				c3.M = append(c3.M, [2]*Val{Bool(true), Int("int64", 1)})
+				out = append(out, Corruption{V: c3, Path: []string{}, What: "extra key (not a string)", Names: "true"})
+			}
 		}
 	case "oneOf":
 		if v.Kind != "m" {
